@@ -19,7 +19,7 @@ NEEDS = ["harness", "cli"]
 RULE = ("(A) random call sets with missing/multiallelic genotypes x maps, with and without projection: mass(stdout) + X == R and Y == R for the "
         "summary 'Skipped X/Y', the multiset of 'Skipping site c:p' lines (-v) == the reference's skipped records (each exactly once), no summary "
         "when nothing is skipped; --strict fails at the FIRST would-be-skipped record naming it and otherwise prints identical output; L1: every "
-        "counted record's contribution sums to 1 (1e-9). (B) for streams of R records (R<=12 quick, <=40 thorough) a failing record at EVERY position "
+        "counted record's contribution sums to 1 (1e-9), incl. cohorts of 86-220 samples and of 500-1200 samples projected to about half (the band where the binomial coefficients leave the f64 range one after the other). (B) for streams of R records (R<=12 quick, <=40 thorough) a failing record at EVERY position "
         "0..R-1 x kind {ploidy error in a selected sample (4 containers), malformed VCF line (vcf, vcf.gz), BCF stream truncated inside record i "
         "(raw bcf, bgzf bcf), BGZF block i with a corrupted CRC (vcf.gz, bcf)}: exit != 0, empty stdout, diagnostic on stderr (naming contig:pos for "
         "ploidy errors). Non-trivial: a run with >=1 skipped and >=1 counted record, or any fault case; distinct = digest(input, argv).")
